@@ -5,6 +5,6 @@ for s in "$@"; do
   git -C /repo apply /verif/seeded/$s/patch.diff || { echo "$s: patch failed"; continue; }
   out=$(cd /verif && VERIF_EVIDENCE_DIR=/tmp/verif-seed-evidence timeout 1800 ./check $P quick 2>&1 | tail -4)
   git -C /repo checkout -- .
-  echo "== $s vs $P: $(echo "$out" | grep -c VIOLATION) VIOLATION lines; $(echo "$out" | tail -1)"
+  echo "== $s vs $P: $(echo "$out" | grep -c VIOLATION) VIOLATION lines ($(echo "$out" | grep -c no-failing-input-found) nfif); $(echo "$out" | tail -1 | cut -c1-120)"
 done
 git -C /repo status --short | head -3
